@@ -343,6 +343,20 @@ fn handle(req: &Value, table: &[(&'static str, &'static str, Expander)]) -> Valu
                 Err(e) => json!({"lex_error": e.to_string()}),
             }
         }
+        "hash_probe" => {
+            // C19 control: iteration order of the same keys in (1) the crate's own `utils::HashSet` alias
+            // (whatever hasher state it is built with) and (2) std's `HashSet` with `RandomState`
+            let keys: Vec<String> = req["keys"]
+                .as_array()
+                .map(|a| a.iter().filter_map(|k| k.as_str().map(str::to_string)).collect())
+                .unwrap_or_default();
+            let alias: utils::HashSet<String> = keys.iter().cloned().collect();
+            let random: std::collections::HashSet<String> = keys.iter().cloned().collect();
+            json!({
+                "alias": alias.iter().cloned().collect::<Vec<_>>(),
+                "random_state": random.iter().cloned().collect::<Vec<_>>(),
+            })
+        }
         "xid" => {
             // character classes used by the literal parser, for a range of code points
             let lo = req["lo"].as_u64().unwrap_or(0) as u32;
